@@ -4,6 +4,7 @@ Seeded fault sequences on dataset pairs and input sections (well-formedness mode
 complete single-fault sweep over the read side of the I/O seam for sampled command-line runs.
 """
 import copy
+import json
 import os
 import sys
 
@@ -29,6 +30,15 @@ IN_BREAKING = ["img_missing", "img_empty", "img_garbage", "img_directory", "img_
               [k + "_string:" + v for k in ("mask", "classif", "segm") for v in ("none", "None", "null", "NaN")]
 IN_PRESERVING = ["nodata_nan_str", "nodata_nan_float", "nodata_int", "extras_null", "classif_ok", "segm_ok",
                  "mask_ok", "grid_int_dtype"]
+# pools the random stream draws from (frozen); the operators below are chosen afterwards from a hash of the op list,
+# so that scenarios generated before they existed keep their content
+GEN_DS_BREAKING, GEN_DS_PRESERVING = list(DS_BREAKING), list(DS_PRESERVING)
+GEN_IN_BREAKING, GEN_IN_PRESERVING = list(IN_BREAKING), list(IN_PRESERVING)
+NARROW = {"int8": (-100, 100), "int16": (-20000, 20000), "uint8": (0, 200), "uint16": (0, 60000)}
+IN_PRESERVING += ["grid_narrow_wide:" + t for t in NARROW]          # legal wide interval in a narrow integer type
+IN_BREAKING += ["grid_unsigned_min_gt_max:" + t for t in ("uint8", "uint16")]
+DS_PRESERVING += ["disp_narrow_wide:" + t for t in NARROW]
+DS_BREAKING += ["disp_unsigned_min_gt_max:" + t for t in ("uint8", "uint16")]
 # fault-then-repair pairs: a path is named while nothing readable is there, later the same path holds a good file
 REPAIR_PAIRS = {"mask_path_missing": "mask_path_repaired", "img_path_garbage": "img_path_repaired",
                 "segm_path_missing": "segm_path_repaired"}
@@ -98,6 +108,16 @@ def apply_ds_op(op, ds, w):
         r, c = op.get("pixel", [0, 0])
         r, c = r % rows, c % cols
         data[0, r, c] = data[1, r, c] + 1
+        d["disparity"] = xr.DataArray(data, dims=["band_disp", "row", "col"])
+    elif name.startswith("disp_narrow_wide:") or name.startswith("disp_unsigned_min_gt_max:"):
+        if "disparity" not in d or "band_disp" not in d.coords or list(d.coords["band_disp"].data) != ["min", "max"]:
+            return False
+        t = name.split(":")[1]
+        lo, hi = NARROW[t]
+        data = np.stack([np.full((rows, cols), lo), np.full((rows, cols), hi)]).astype(t)
+        if name.startswith("disp_unsigned"):
+            r, c = op.get("pixel", [0, 0])
+            data[0, r % rows, c % cols], data[1, r % rows, c % cols] = 5, 2
         d["disparity"] = xr.DataArray(data, dims=["band_disp", "row", "col"])
     elif name == "size_mismatch":
         if "im" not in ds["right"] or "im" not in ds["left"]:
@@ -276,6 +296,19 @@ def apply_in_op(op, inp, w, tmp, uid):
 
         shutil.copyfile(inp.get("_orig_img", {}).get(side, inp[side]["img"]), os.path.join(tmp, f"shared_img_{side}.tif"))
         inp[side]["img"] = os.path.join(tmp, f"shared_img_{side}.tif")
+    elif name.startswith("grid_narrow_wide:") or name.startswith("grid_unsigned_min_gt_max:"):
+        t = name.split(":")[1]
+        lo, hi = NARROW[t]
+        data = np.stack([np.full((rows, cols), lo), np.full((rows, cols), hi)]).astype(t)
+        if name.startswith("grid_unsigned"):
+            r, c = op.get("pixel", [1, 1])
+            data[0, r % rows, c % cols], data[1, r % rows, c % cols] = 5, 2
+        elif not isinstance(inp["left"].get("disp"), str):
+            return False
+        files.write_raster(p("grid_" + t + ".tif"), data, dtype=t)
+        inp["left"]["disp"] = p("grid_" + t + ".tif")
+        if isinstance(inp["right"].get("disp"), list):
+            inp["right"]["disp"] = None
     elif name == "grid_int_dtype":
         # a well-formed 2-band grid stored with an integer sample type
         if not isinstance(inp["left"].get("disp"), str):
@@ -340,13 +373,32 @@ class C17:
                 ops.append({"name": good, "side": "left" if op["side"] == "right" else "right", "pixel": [0, 0]})
         return ops
 
+    @staticmethod
+    def late_ops(ops, kind):
+        """operators added after the pools were frozen: substituted from a hash of the op list (no draw from rnd)"""
+        import hashlib
+
+        h = hashlib.sha256(json.dumps([kind, ops], sort_keys=True).encode()).digest()
+        types = sorted(NARROW)
+        for i, op in enumerate(ops):
+            b = h[i % 32]
+            if kind == "in" and op["name"] == "grid_int_dtype" and b % 2 == 0:
+                op["name"] = "grid_narrow_wide:" + types[(b // 2) % 4]
+            elif kind == "in" and op["name"] == "grid_min_gt_max" and b % 3 == 0:
+                op["name"] = "grid_unsigned_min_gt_max:" + ("uint8", "uint16")[(b // 3) % 2]
+            elif kind == "ds" and op["name"] == "min_gt_max" and b % 3 == 0:
+                op["name"] = "disp_unsigned_min_gt_max:" + ("uint8", "uint16")[(b // 3) % 2]
+            elif kind == "ds" and op["name"] in ("extra_attr", "add_segm") and b % 3 == 0:
+                op["name"] = "disp_narrow_wide:" + types[(b // 3) % 4]
+        return ops
+
     def generate(self, rnd, index, tier):
         r = rnd.random()
         w = world.gen_world(rnd, rows=rnd.randint(6, 12), cols=rnd.randint(8, 14), georef=rnd.random() < 0.3)
         if r < 0.5:
-            return {"harness": "datasets", "world": w, "ops": self.gen_ops(rnd, DS_BREAKING, DS_PRESERVING, 0.35)}
+            return {"harness": "datasets", "world": w, "ops": self.late_ops(self.gen_ops(rnd, GEN_DS_BREAKING, GEN_DS_PRESERVING, 0.35), "ds")}
         if r < 0.92:
-            hist = [self.gen_ops(rnd, IN_BREAKING, IN_PRESERVING, 0.4) for _ in range(rnd.randint(2, 8))]
+            hist = [self.late_ops(self.gen_ops(rnd, GEN_IN_BREAKING, GEN_IN_PRESERVING, 0.4), "in") for _ in range(rnd.randint(2, 8))]
             worlds = [w]
             # alternate disparity forms across the history: integer pair / grid + null / grid + grid
             if rnd.random() < 0.3:
